@@ -171,10 +171,27 @@ int run_preempt(const Args& a) {
         // ---------------------------------------------------------------- recipe
         Recipe rc;
         inline_mode = r.chance(1, 3);
-        rc.ukind = static_cast<int>(r.below(3));
+        rc.ukind = static_cast<int>(r.below(4));
         std::size_t n = r.chance(1, 5) ? r.range(150, 420) : r.range(24, 90); // the larger ones have two interior levels
         std::string pfx = rc.ukind == 0 ? "" : (rc.ukind == 1 ? "LAYER001" : "PREFIX8B");
-        for (std::size_t i = 0; i < n * 4; ++i) {
+        if (rc.ukind == 3) {
+            // many tiny sub-layers: groups of keys sharing an 8-byte prefix, every other group absent altogether; a burst can
+            // empty a whole layer and the slot of its link is taken by a key of another prefix or by a short key
+            std::size_t groups = r.range(6, 40);
+            for (std::size_t g = 0; g < groups; ++g) {
+                char b[16];
+                snprintf(b, sizeof b, "GRP%05zu", g);
+                for (int i = 0; i < 8; ++i) {
+                    if (g % 2 == 0 ? (i % 2 == 0) : (i == 3 || i == 5)) { rc.uni.push_back(std::string(b) + static_cast<char>('0' + i)); }
+                }
+                if (g % 3 == 0) {
+                    char sb[16];
+                    snprintf(sb, sizeof sb, "GRP%04zu", g); // 7 bytes: a value entry of the top border between the links
+                    rc.uni.emplace_back(sb);
+                }
+            }
+        }
+        for (std::size_t i = 0; rc.ukind != 3 && i < n * 4; ++i) {
             char b[16];
             snprintf(b, sizeof b, "%05zu", i);
             rc.uni.push_back(pfx + (rc.ukind == 0 ? "k" : "") + b);
@@ -184,10 +201,17 @@ int run_preempt(const Args& a) {
         }
         if (rc.ukind == 2) { rc.uni.push_back(pfx); } // the 8-byte key next to its own link
         std::sort(rc.uni.begin(), rc.uni.end());
+        rc.uni.erase(std::unique(rc.uni.begin(), rc.uni.end()), rc.uni.end());
         {
             std::vector<std::string> ini;
             for (std::size_t i = 0; i < rc.uni.size(); ++i) {
                 bool shortkey = rc.uni[i].size() <= 3;
+                if (rc.ukind == 3) {
+                    // even groups present (2..4 keys each), odd groups and most short keys absent
+                    bool grp = rc.uni[i].size() == 9;
+                    if (grp ? ((rc.uni[i][7] - '0') % 2 == 0) : (i % 3 == 0)) { ini.push_back(rc.uni[i]); }
+                    continue;
+                }
                 if (shortkey ? (i % 2 == 0) : (i % 4 == 0)) { ini.push_back(rc.uni[i]); }
             }
             if (rc.ukind == 2 && r.chance(2, 3)) { ini.push_back(pfx); }
@@ -238,6 +262,17 @@ int run_preempt(const Args& a) {
             // endpoints that are absent keys (gaps before the first key of a node)
             auto it = std::lower_bound(rc.uni.begin(), rc.uni.end(), rk);
             if (it + 1 < rc.uni.end()) { rk = *(it + 1); }
+        }
+        if (reader != "get" && r.chance(1, 4)) {
+            // left endpoint on an absent key (a gap); in the layered universes sometimes the last short key before the link,
+            // so that the top border contributes nothing but the link to the read
+            auto it = std::lower_bound(rc.uni.begin(), rc.uni.end(), lk);
+            if (rc.ukind != 0 && r.chance(1, 2)) {
+                lk = "A6";
+            } else if (it != rc.uni.begin() && state0.count(*(it - 1)) == 0U) {
+                lk = *(it - 1);
+            }
+            if (lk > rk) { rk = lk; }
         }
         if (lk == rk && le != scan_endpoint::INF && re != scan_endpoint::INF) { le = re = scan_endpoint::INCLUSIVE; } // anything else is an empty range (rejected)
         bool r2l = false, early_abort = false;
